@@ -737,3 +737,15 @@ Lemma accepts_iff_documented_full_lemma : forall d r s,
 Proof.
   intros d r s Hin Hf Hs. apply accepts_iff_documented_lemma; auto. now rewrite (no_gap_rows_lemma d Hin).
 Qed.
+
+(* ------------------------------------------------------------------ completeness checks before a field computation *)
+Definition completeness_ok : bool :=
+  forallb (fun c : string * string => String.eqb (snd c) flattened_sources_name) completeness_calls &&
+  str_mem "check_dimensions" (map fst completeness_calls) &&
+  str_mem "check_excitations" (map fst completeness_calls) &&
+  forallb (fun d => negb (d_none d) ||
+                    str_mem (d_attr d) (dimension_args ++ excitation_args ++ ["magnetization"; "pixel"])) doc_table &&
+  forallb (fun d => negb (sd_none d) || str_mem (sd_attr d) (dimension_args ++ excitation_args)) sdoc_table.
+
+Lemma completeness_ok_lemma : completeness_ok = true.
+Proof. vm_compute. reflexivity. Qed.
